@@ -536,41 +536,58 @@ func init() {
 			for i := nargs; i+1 < len(vs); i += 2 {
 				given[constStr(un(vs[i]), "phi name")] = un(vs[i+1])
 			}
-			var header *ssa.BasicBlock
+			// loop headers with phis, in block order; "@loop", k selects the k-th (default: the first)
+			var headers []*ssa.BasicBlock
 			for _, b := range fn.Blocks {
 				if _, ok := b.Instrs[0].(*ssa.Phi); !ok {
 					continue
 				}
 				for _, pr := range b.Preds {
-					if pr.Index >= b.Index {
-						header = b
+					if b.Dominates(pr) { // back edge
+						headers = append(headers, b)
+						break
 					}
 				}
-				if header != nil {
-					break
-				}
 			}
-			if header == nil {
-				panic(unsupported("vLoopStep: no loop header with phis in %s", fn.String()))
+			which := 0
+			if v, ok := given["@loop"]; ok {
+				which = constInt(v, "loop index")
 			}
-			// values defined before the loop and used inside it are not available: refuse
+			if which >= len(headers) {
+				panic(unsupported("vLoopStep: %s has no loop header #%d with phis", fn.String(), which))
+			}
+			header := headers[which]
+			nf := &Frame{fn: fn, regs: make(map[ssa.Value]Value), forks: map[ssa.Instruction]int{}, harn: false}
+			// values defined before the loop and used inside it: address-taken locals can be supplied by name
+			// (a pointer to a harness object of the same type); anything else is refused
 			for _, b := range fn.Blocks {
-				if b.Index >= header.Index {
-					break
-				}
 				for _, in := range b.Instrs {
 					v, ok := in.(ssa.Value)
-					if !ok || v.Referrers() == nil {
+					if !ok || v.Referrers() == nil || b == header {
 						continue
 					}
+					usedInLoop := false
 					for _, r := range *v.Referrers() {
-						if r.Block() != nil && r.Block().Index >= header.Index {
-							if _, isPhi := r.(*ssa.Phi); isPhi && r.Block() == header {
-								continue
-							}
-							panic(unsupported("vLoopStep: %s defines %s before the loop and uses it inside", fn.String(), v.Name()))
+						if r.Block() == nil {
+							continue
+						}
+						if _, isPhi := r.(*ssa.Phi); isPhi && r.Block() == header {
+							continue
+						}
+						if r.Block() != b && e.blockInLoop(fn, header, r.Block()) && !e.blockInLoop(fn, header, b) {
+							usedInLoop = true
 						}
 					}
+					if !usedInLoop {
+						continue
+					}
+					if a, isAlloc := in.(*ssa.Alloc); isAlloc {
+						if gv, ok := given[a.Comment]; ok {
+							nf.regs[a] = gv
+							continue
+						}
+					}
+					panic(unsupported("vLoopStep: %s defines %s (%s) outside the loop and uses it inside; supply it by name", fn.String(), v.Name(), in.String()))
 				}
 			}
 			var phis []Value
@@ -594,7 +611,6 @@ func init() {
 				}
 				e.funcsSeen[fn.String()] = n
 			}
-			nf := &Frame{fn: fn, regs: make(map[ssa.Value]Value), forks: map[ssa.Instruction]int{}, harn: false}
 			for i, p := range fn.Params {
 				nf.regs[p] = un(vs[i])
 			}
